@@ -113,3 +113,67 @@ Example option_examples :
   c05_optdata 13 [1;97;0] = Ok [VName [[97]]] /\ c05_optdata 13 [1;97;0;0] = Err E_FORM /\
   c05_optdata 13 [192;0] = Err E_BADLABEL.
 Proof. vm_compute. repeat split; reflexivity. Qed.
+
+(* ---- IPSECKEY *)
+Lemma ipseckey_schema_wf g : wf_schema_full (ipseckey_schema g) = true.
+Proof.
+  unfold ipseckey_schema, gateway_fields.
+  destruct (g =? 1); [reflexivity|]. destruct (g =? 2); [reflexivity|].
+  destruct (g =? 3); reflexivity.
+Qed.
+
+Lemma be1 x : x < 256 -> be 1 x = [x].
+Proof. intros H. cbn [be app]. f_equal. lia. Qed.
+
+Theorem ipseckey_parse_compose g v pre post :
+  g <= 3 -> wf_value (ipseckey_schema g) v = true ->
+  ipseckey_parse (pre ++ compose (ipseckey_schema g) v ++ post) (len pre)
+    (len pre + len (compose (ipseckey_schema g) v)) = Ok v /\
+  rdlen (ipseckey_schema g) false v = Ok (Some (len (compose (ipseckey_schema g) v))).
+Proof.
+  intros Hg Hv. split; [|apply (rdlen_exact _ _ Hv)].
+  pose proof (parse_compose pname_nc_dec pname_nc_dec_complete (ipseckey_schema g) v pre post
+                (ipseckey_schema_wf g) Hv) as Hpc.
+  unfold wf_value in Hv. apply andb_true_iff in Hv as [Hv Hpost].
+  apply andb_true_iff in Hv as [Hf _].
+  unfold ipseckey_schema in Hf. cbn [s_fields app wf_fvals] in Hf.
+  destruct v as [|[p| | |] [|[g'| | |] [|[a| | |] rest]]]; try discriminate.
+  apply andb_true_iff in Hf as [Hp Hf]. apply andb_true_iff in Hf as [Hg' Hf].
+  apply andb_true_iff in Hf as [Ha _].
+  cbn [wf_fval pow256] in Hp, Hg', Ha.
+  apply N.ltb_lt in Hp, Hg', Ha. change (pow256 1) with 256 in Hp, Hg', Ha.
+  unfold post_ok, ipseckey_schema in Hpost. cbn [s_post post_check] in Hpost.
+  destruct (N.eqb_spec g' g) as [->|]; [|discriminate]. clear Hpost.
+  unfold ipseckey_parse.
+  set (c := compose (ipseckey_schema g) (VNum p :: VNum g :: VNum a :: rest)) in *.
+  assert (Hc : exists tl, c = p :: g :: a :: tl).
+  { subst c. unfold compose, ipseckey_schema. cbn [s_fields app compose_fields compose_field U8].
+    rewrite (be1 p), (be1 g), (be1 a) by lia. cbn [app]. eexists. reflexivity. }
+  destruct Hc as [tl Hc]. rewrite Hc in *.
+  destruct (N.ltb_spec (len pre + len (p :: g :: a :: tl) - len pre) 3) as [L|_].
+  { rewrite !len_cons in L. lia. }
+  replace (pre ++ (p :: g :: a :: tl) ++ post) with ((pre ++ [p]) ++ g :: (a :: tl ++ post))
+    by (rewrite <- !app_assoc; reflexivity).
+  replace (len pre + 1) with (len (pre ++ [p])) by (rewrite len_app, len_cons, len_nil; lia).
+  rewrite get_mid.
+  destruct (N.ltb_spec 3 g) as [L|_]; [lia|].
+  replace ((pre ++ [p]) ++ g :: (a :: tl ++ post)) with (pre ++ (p :: g :: a :: tl) ++ post)
+    by (rewrite <- !app_assoc; reflexivity).
+  exact Hpc.
+Qed.
+
+Example ipseckey_examples :
+  (* no gateway, algorithm 2 without a key: accepted by new(), refused by parse *)
+  ipseckey_parse [10; 0; 2] 0 3 = Err E_SHORT /\
+  ipseckey_parse [10; 0; 0] 0 3 = Ok [VNum 10; VNum 0; VNum 0; VBytes []] /\
+  ipseckey_parse [10; 1; 2; 192; 0; 2; 1; 7; 7] 0 9 = Ok [VNum 10; VNum 1; VNum 2; VBytes [192;0;2;1]; VBytes [7;7]] /\
+  ipseckey_parse [10; 3; 2; 1; 97; 0; 7] 0 7 = Ok [VNum 10; VNum 3; VNum 2; VName [[97]]; VBytes [7]] /\
+  (* label + pointer: refused; pointer only: taken as an uncompressed name at the target *)
+  ipseckey_parse [1; 120; 0; 10; 3; 2; 1; 97; 192; 0; 7] 3 11 = Err E_FORM /\
+  ipseckey_parse [1; 120; 0; 10; 3; 2; 192; 0; 7] 3 9 = Ok [VNum 10; VNum 3; VNum 2; VName [[120]]; VBytes [7]] /\
+  ipseckey_parse [10; 4; 2; 7] 0 4 = Err E_FORM /\
+  ipseckey_parse [10; 1] 0 2 = Err E_SHORT /\
+  (* Ipseckey::new takes the key-less value that parse refuses *)
+  ctor_accepts (ipseckey_schema 0) [VNum 10; VNum 0; VNum 2; VBytes []] = true /\
+  wf_value (ipseckey_schema 0) [VNum 10; VNum 0; VNum 2; VBytes []] = false.
+Proof. vm_compute. repeat split; reflexivity. Qed.
